@@ -423,6 +423,10 @@ private:
       if (session.fragmentBuffer.size() > _maxFrameSize)
       {
         tooLarge = true;
+        // The oversized partial message is never delivered: drop it so that
+        // further fragments cannot grow the buffer without bound.
+        session.fragmentBuffer.clear();
+        session.fragmentOpcode = WsOpcode::CONTINUATION;
       }
       else if (frame.fin)
       {
